@@ -7,7 +7,9 @@ package corpus
 
 import (
 	"fmt"
+	"sort"
 
+	"google.golang.org/protobuf/proto"
 	"google.golang.org/protobuf/types/descriptorpb"
 )
 
@@ -200,4 +202,36 @@ func RandomSet(seed uint64, i int, prefix, base string, onePkg bool) Set {
 		gen = append(gen, f.Path)
 	}
 	return Set{Name: name, Files: fds, Generate: gen, Param: "features=protoc+fast"}
+}
+
+// ReversePaths returns a copy of the set in which the paths of the requested files are exchanged end for end in sorted order
+// (the first in lexical order gets the last one's path, ...): contents, packages and the import graph stay what they were, but a
+// file that sorted after the files it imports now sorts before them. Go initialises the files of a package in file-name order,
+// so this is the other half of the input space for sets generated into one Go package.
+func ReversePaths(s Set) Set {
+	names := append([]string{}, s.Generate...)
+	sort.Strings(names)
+	to := map[string]string{}
+	for i, n := range names {
+		to[n] = names[len(names)-1-i]
+	}
+	ren := func(n string) string {
+		if m, ok := to[n]; ok {
+			return m
+		}
+		return n
+	}
+	out := Set{Name: s.Name, Param: s.Param, Note: s.Note}
+	for _, f := range s.Files {
+		c := proto.Clone(f).(*descriptorpb.FileDescriptorProto)
+		c.Name = proto.String(ren(f.GetName()))
+		for i, d := range c.Dependency {
+			c.Dependency[i] = ren(d)
+		}
+		out.Files = append(out.Files, c)
+	}
+	for _, g := range s.Generate {
+		out.Generate = append(out.Generate, ren(g))
+	}
+	return out
 }
